@@ -209,8 +209,41 @@ def sx_type(*a, **k):
     return type(*a, **k)
 
 
+_NATIVE_LEN = (list, tuple, dict, str, bytes, bytearray, set, frozenset, range, memoryview)
+
+
 def sx_len(o):
+    """len() that lets a python-level __len__ return a symbolic integer (native len() would force
+    it through __index__)."""
+    t = type(o)
+    if t in _NATIVE_LEN or t is SymBytes:
+        return len(o)
+    f = getattr(t, "__len__", None)
+    if f is None or not hasattr(f, "__code__"):
+        return len(o)
+    r = f(o)
+    if _ri(r, SymInt):
+        if bool(r < 0):
+            raise ValueError("__len__() should return >= 0")
+        return r
     return len(o)
+
+
+_PLAIN = (bool, int, str, bytes, list, tuple, dict, type(None), float, set, frozenset, bytearray)
+
+
+def sx_truth(o):
+    t = type(o)
+    if t in _PLAIN or t is SymBool or t is SymInt or t is SymBytes:
+        return o
+    if getattr(t, "__bool__", None) is None:
+        f = getattr(t, "__len__", None)
+        if f is not None and hasattr(f, "__code__"):
+            r = f(o)
+            if _ri(r, SymInt):
+                return r != 0
+            return r != 0
+    return o
 
 
 def sx_abs(x):
@@ -646,7 +679,7 @@ SHIM.update(
     isinstance=sx_isinstance, issubclass=sx_issubclass, int=sx_int, bool=sx_bool, bytes=sx_bytes,
     bytearray=sx_bytearray, memoryview=sx_memoryview, len=sx_len, abs=sx_abs, max=sx_max, min=sx_min,
     sum=sx_sum, divmod=sx_divmod, pow=sx_pow, round=sx_round, hex=sx_hex, bin=sx_bin, oct=sx_oct,
-    sorted=sx_sorted, sx_contains_=sx_contains, sx_getitem_=sx_getitem, sx_join_=sx_join,
+    sorted=sx_sorted, sx_truth_=sx_truth, sx_contains_=sx_contains, sx_getitem_=sx_getitem, sx_join_=sx_join,
     sx_real_int_=int, sx_real_str_=str, sx_real_bytes_=bytes, sx_real_float_=float, sx_real_bool_=bool,
     sx_real_bytearray_=bytearray,
 )
